@@ -2,12 +2,13 @@
    Only ExtrOcamlBasic (bool, option, list, prod, unit, sumbool -> OCaml's own types);
    N, Z, positive, nat stay the extracted inductive types.  No Extract Constant. *)
 From Coq Require Extraction ExtrOcamlBasic.
-From Shred Require Import Base SrcParams Plan PlanObs Exec ExecObs NestedObs Visit Fault World SysData Meta ParSeq Async Pool.
+From Shred Require Import Base SrcParams Plan PlanObs PlanRec Exec ExecObs NestedObs Visit Fault World SysData Meta ParSeq Async Pool.
 Extraction Language OCaml.
 Extraction "extracted/model.ml"
   cap join_slack time_values tuple_arities params_source
   plan run_regs empty_builder print_builder layout_tags layout_ids shape max_threads sendable b_tl b_stages
   levels err_index_regs calls_regs sys_tags tl_tags
+  plan_rec rec_errs rec_calls accepted level_prog
   o_exec_perm o_isolated o_deps_ordered o_barriers o_skip_justified o_max_threads o_print o_sendable spec_first_error
   rw_conflict eff_reads eff_writes find_reg reg_tag dep_tags
   accept_disp trace_seq group_trace ev_eqb o_once o_no_overlap o_preds_done o_tl_last o_inside must_precede subtree_tags model_layout
